@@ -6,6 +6,8 @@ import (
 	"flag"
 	"fmt"
 	"os"
+	"runtime/debug"
+	"strings"
 	"time"
 
 	"verifharness/vt"
@@ -49,6 +51,25 @@ func (c *ctx) try(op string, info vt.Ev, f func()) (ok bool) {
 	return true
 }
 
+// panicOrigin finds the innermost frame of a recovered panic outside the Go runtime and says whether it is library code.
+func panicOrigin(stack []byte) (string, bool) {
+	lines := strings.Split(string(stack), "\n")
+	seenPanic := false
+	for i := 0; i+1 < len(lines); i++ {
+		fn := lines[i]
+		if strings.HasPrefix(fn, "panic(") {
+			seenPanic = true
+			continue
+		}
+		if !seenPanic || strings.HasPrefix(fn, "\t") || strings.HasPrefix(fn, "runtime.") || strings.HasPrefix(fn, "runtime/") {
+			continue
+		}
+		where := fn + " " + strings.TrimSpace(lines[i+1])
+		return where, strings.Contains(fn, "github.com/oasisprotocol/curve25519-voi/")
+	}
+	return "", false
+}
+
 // abandon ends the recording after a library call failed to return: the event is written, the files are closed and
 // the process exits (the stuck goroutines cannot be stopped any other way). The specification rejects the event.
 func (c *ctx) abandon(e vt.Ev) {
@@ -85,7 +106,22 @@ func main() {
 		limit = 3600 * time.Second
 	}
 	done := make(chan struct{})
-	go func() { f(c); close(done) }()
+	go func() {
+		defer func() {
+			if p := recover(); p != nil {
+				// a panic raised INSIDE the library (innermost frame outside the runtime is the module's) on the recorder's
+				// well-formed calls is an observation about the code; a panic in the recorder itself stays fatal
+				if where, lib := panicOrigin(debug.Stack()); lib {
+					c.w.Emit(vt.Ev{"op": "libpanic", "cfg": c.cfg, "during": "recorder", "msg": fmt.Sprint(p), "where": where})
+					close(done)
+					return
+				}
+				panic(p)
+			}
+		}()
+		f(c)
+		close(done)
+	}()
 	select {
 	case <-done:
 	case <-time.After(limit):
